@@ -25,6 +25,7 @@ func runC17(c *core.Ctx) {
 	c.RuleDoc("R17.1", "nullable pointer field: every dereference guarded by a dominating non-nil test")
 	c.RuleDoc("R17.5", "every success return of a handle method lies on a path that consulted the closed mark or delegated")
 	c.RuleDoc("R17.10", "no method of a file handle returns with a mutex held")
+	c.RuleDoc("R17.13", "Close of the os-backed handle closes the *os.File on every path")
 	c.RuleDoc("R17.12", "a method of the os-backed handle returns the error of the *os.File call it makes")
 	c.RuleDoc("R17.11", "a File helper hands its file's error on instead of answering with its own")
 	c.RuleDoc("R17.9", "a second Close fails")
@@ -43,6 +44,7 @@ func runC17(c *core.Ctx) {
 		r17WrapperAnswersLast(c, p)
 		r17HelpersKeepTheHandleError(c, p)
 		r17OSHandleErrorsKept(c, p)
+		r17OSCloseAlwaysCloses(c, p)
 		if fileI := stdIface(p, "io/fs", "File"); fileI != nil {
 			var hm []*ssa.Function
 			for _, n := range implementers(p, fileI) {
@@ -66,6 +68,7 @@ func runC17(c *core.Ctx) {
 	c.Floor("R17.8", 10)
 	c.Floor("R17.9", 2)
 	c.Floor("R17.12", 8)
+	c.Floor("R17.13", 1)
 	c.Floor("R17.11", 8)
 	c.Floor("R17.3", 8)
 	c.Floor("R17.4", 1)
@@ -1024,4 +1027,35 @@ func r17OSHandleErrorsKept(c *core.Ctx, p *load.Program) {
 	if cnt == 0 {
 		c.Hard("anchor: *os.File calls in the methods of os.file")
 	}
+}
+
+// r17OSCloseAlwaysCloses (R17.13): every path through Close of the os-backed handle calls (*os.File).Close. A Close
+// that returns early (a failing Sync before it: fsync of a FIFO or /dev/null answers EINVAL) leaves the descriptor
+// open — every later call on the "closed" handle succeeds, and a second Close answers EINVAL instead of ErrClosed.
+func r17OSCloseAlwaysCloses(c *core.Ctx, p *load.Program) {
+	if p.Target == load.Wasm {
+		return
+	}
+	fn := p.Method("os", "file", "Close")
+	if fn == nil || fn.Blocks == nil {
+		c.Hard("anchor: os.file.Close")
+		return
+	}
+	bad := ""
+	ssax.EnumPaths(fn, fn.Blocks[0], 0, ssax.NewPathState(), ssax.PathHooks{
+		Instr: func(ps *ssax.PathState, ins ssa.Instruction) {
+			if ci, ok := ins.(ssa.CallInstruction); ok {
+				if callee := ssax.StaticCallee(ci); callee != nil && callee.Name() == "Close" && callee.Pkg != nil && callee.Pkg.Pkg.Path() == "os" {
+					ps.Counts["closed"] = 1
+				}
+			}
+		},
+		End: func(ps *ssax.PathState, last ssa.Instruction) {
+			if _, isRet := last.(*ssa.Return); isRet && ps.Counts["closed"] == 0 && bad == "" {
+				bad = p.Pos(last.Pos())
+			}
+		},
+	})
+	c.Check(bad == "", "R17.13", "os.file.Close|always-closes-the-descriptor", p.Pos(fn.Pos()), "every path calls (*os.File).Close",
+		fmt.Sprintf("(*os.file).Close returns at %s without having closed the *os.File: the handle stays usable after a Close that reported an error — Read, Write, Seek and Stat on it succeed, the descriptor leaks, and a second Close does not answer ErrClosed", bad))
 }
